@@ -299,6 +299,10 @@ func sizesMonitor(ops, impl []string) []Violation {
 		}
 		if strings.HasPrefix(out, "ok ") && !strings.HasPrefix(out, "ok readable") {
 			vs = append(vs, Violation{Property: "C15", What: "an entry the WAL acknowledged cannot be read back identically", Detail: out, Ops: []string{op}, Impl: []string{out}})
+			// the same observation is a failure of "GetLog returns the stored entry for every index in [First, Last]" (C05)
+			// and of "StoreLogs followed by GetLog returns an equal log" across the 64 KiB buffer boundary (C12)
+			vs = append(vs, Violation{Property: "C05", What: "GetLog does not return the stored entry (entry size relative to the 64 KiB read buffer / segment size)", Detail: out, Ops: []string{op}, Impl: []string{out}})
+			vs = append(vs, Violation{Property: "C12", What: "StoreLogs followed by GetLog does not return an equal log (entry size relative to the 64 KiB read buffer)", Detail: out, Ops: []string{op}, Impl: []string{out}})
 		}
 	}
 	return vs
